@@ -167,6 +167,20 @@ def gen_cases(ctx, scale):
             hs2 = hs if r.chance(1, 2) else [((h & ~0xFFFF) & M64) | r.below(2) for h in hs]
             out.append((H, 'tp4c %d %d %d %d %d %d %s %s' % (H, L, L1, L2, r.choice([-1, 0, 1, 2, r.below(nk + 1)]), len(rem),
                                                          ' '.join(map(str, rem)), ' '.join(map(str, hs2))), None))
+    # Find across chained generations: the first Reserve is interrupted by a throwing hash functor and NO second Reserve follows, so
+    # the real HashSet::Find has to walk mBuckets and GetNextBuckets(); the F: list (generation : bucket . slot) must match find_gens
+    for i in range(16 * scale):
+        L = r.choice([1, 2, 3, 4]); L1 = L + r.choice([1, 2]); cap = int((1 << L) * 3 / 12.0 * 11.0)
+        nk = r.range(max(2, cap // 2), cap)
+        hs = [((rnd_hash(r, edges) & ~0xFFFF) & M64) | r.below(2) for _ in range(nk)] if r.chance(1, 2) else [rnd_hash(r, edges) for _ in range(nk)]
+        if L == 1: hs = [rnd_hash(r, edges) for _ in range(nk)]
+        out.append((0, 'tbl2 %d %d 0 %d 0 %s' % (L, L1, r.below(3), ' '.join(map(str, hs))), None))
+    for H in (4, 6, 8):
+        for i in range(8 * scale):
+            L = r.choice([0, 1, 2, 3]); L1 = L + r.choice([2, 3]); cap = (1 << L) * 2
+            nk = r.range(max(2, cap // 2), cap)
+            hs = [((rnd_hash(r, edges) & ~0xFFFF) & M64) | r.below(2) for _ in range(nk)]
+            out.append((H, 'tp4c %d %d %d 0 %d 0 %s' % (H, L, L1, r.below(3), ' '.join(map(str, hs))), None))
     # BucketOne table level: fill, remove, Reserve, compare every bucket's hash state / key (the full getter is never called)
     for i in range(40 * scale):
         L = r.choice([1, 2, 3, 4, 5, 6]); L1 = min(11, L + r.choice([1, 1, 2, 3, 6]))
@@ -357,6 +371,38 @@ def replay(ctx, rp):
         print('VIOLATION property=C12 replay=%s' % ctx.replay); return 1
     print('property holds on this case'); return 0
 
+def derive_refine16(ctx):
+    """P4A_Refine16.v (AddCrt refinement for the minMemPoolIndex = 1 instantiation Gen_P4A16) is DERIVED from P4A_Refine.v on every
+    run by substitution, so it can never go stale: same proof script, other generated module, other template argument."""
+    src = open(os.path.join(ctx.cdir, 'P4A_Refine.v')).read()
+    head = src[:src.index('(* ---- grow round 3: the generated Remove WITH')]
+    t = (head.replace('Gen_P4A.', 'Gen_P4A16.').replace('Gen_P4A ', 'Gen_P4A16 ').replace('mm = 2', 'mm = 1')
+             .replace('change (4 =? 2)', 'change (4 =? 1)'))
+    for nm in ('p4a_same_leaves', 'p4a_mpi', 'p4a_wasfull', 'p4a_setptr', 'p4a_addcrt_refines'):
+        t = t.replace(nm, nm + '16')
+    t = t.replace('(* C12, grow round 2:', '(* DERIVED on every run by prop.py from P4A_Refine.v (Gen_P4A -> Gen_P4A16, minMemPoolIndex 2 -> 1): the same proof\n'
+                  '   script for the 16-byte-item instantiation.  Do not edit.  C12, grow round 2:')
+    t = t.replace('minMemPoolIndex = 2 *)', 'minMemPoolIndex = 1 *)')
+    t = t.replace('From C12 Require Import Gen_P4 Gen_P4A16 P4_Model TableP4.', 'From C12 Require Import Gen_P4 Gen_P4A Gen_P4A16 P4_Model TableP4.')
+    t += SAME16
+    out = os.path.join(ctx.cdir, 'P4A_Refine16.v')
+    if not os.path.exists(out) or open(out).read() != t:
+        open(out, 'w').write(t)
+
+SAME16 = '''
+(* same code: every function of the 16-byte-item instantiation except pvAdd0<minMemPoolIndex> (and AddCrt, which calls it) is
+   convertible to the 8-byte-item one *)
+Lemma p4a16_same_code :
+  Gen_P4A16.pvGetCount = Gen_P4A.pvGetCount /\\ Gen_P4A16.pvCalcShortHash = Gen_P4A.pvCalcShortHash /\\
+  Gen_P4A16.pvGetProbeShift = Gen_P4A.pvGetProbeShift /\\ Gen_P4A16.IsFull = Gen_P4A.IsFull /\\
+  Gen_P4A16.pvGetMemPoolIndex = Gen_P4A.pvGetMemPoolIndex /\\ Gen_P4A16.WasFull = Gen_P4A.WasFull /\\
+  Gen_P4A16.pvSetPtrState = Gen_P4A.pvSetPtrState /\\ Gen_P4A16.pvSetEmpty = Gen_P4A.pvSetEmpty /\\ Gen_P4A16.Clear = Gen_P4A.Clear /\\
+  Gen_P4A16.pvSetHashProbe = Gen_P4A.pvSetHashProbe /\\ Gen_P4A16.pvAdd0_max = Gen_P4A.pvAdd0_max /\\
+  Gen_P4A16.pvAdd_1 = Gen_P4A.pvAdd_1 /\\ Gen_P4A16.pvAdd_2 = Gen_P4A.pvAdd_2 /\\ Gen_P4A16.pvAdd_3 = Gen_P4A.pvAdd_3 /\\
+  Gen_P4A16.Remove = Gen_P4A.Remove.
+Proof. repeat split; reflexivity. Qed.
+'''
+
 def run(ctx):
     scale = 1 if ctx.quick() else 6
     ctx.trusted += ['tools/cxx2coq.py + clang 14 JSON AST (validated on every run against the real functions)',
@@ -369,6 +415,7 @@ def run(ctx):
                         'probe < bucket count (HashSet::pvAddNogrow throws otherwise); LimP4 hashCount in {4,6,8} (all three are run: 64-, 48- and 32-bit BucketLimP4PtrState)',
                         'L1 hash-table statements (Find after growth for the whole container) are observed by the oracle and carried by the C01 model']
     ctx.regen(GEN)
+    derive_refine16(ctx)
     ctx.prove()
     h4, h6 = build_harnesses(ctx)
     if h4 is None or h6 is None:
